@@ -544,6 +544,101 @@ func specPreorderAll(roots []*Node, i int) []*Node {
 //@ loop gtree.defaultWalkerSimple.walk#1
 //@   invariant sofar: !cbFailed && cbTrace == old(cbTrace) ++ specPreorderAll(roots, $i)
 
+// ---- the iterator forms (WalkIterFromRoot): three nested producers, each consumed through iter.Pull2 by the next.
+// Every stream records what it yields in ghost variables (reset when a producer starts); the finish condition of each
+// says that a run that was neither stopped by the consumer nor ended by an error has yielded exactly specPreorder(root).
+// Assumed of the consumer of the outermost iterator (user code): it does not modify the tree being walked.
+//@ ghost var itTrace0 []*Node
+//@ ghost var itTrace1 []*Node
+//@ ghost var itFailed1 bool
+//@ ghost var itStopped1 bool
+//@ ghost var itTrace2 []*Node
+//@ ghost var itFailed2 bool
+//@ ghost var itStopped2 bool
+//@ ghost var itErr2 error
+
+//@ stream walkNodes(wn, e)
+//@   subject r
+//@   requires node [C05]: e == nil && wn != nil && wn.origin != nil
+//@   records itTrace0 := itTrace0 ++ seqof(wn.origin)
+//@   modifies itTrace1, itFailed1, itStopped1, itTrace2, itFailed2, itStopped2, itErr2
+//@   ensures order [C05]: itTrace0 == specPreorder(r)
+
+//@ func gtree.defaultWalkerSimple.walkNodeForIter
+//@   param yiled follows yield.walkNodes
+//@   requires nn: current != nil
+//@   modifies itTrace0, itTrace1, itFailed1, itStopped1, itTrace2, itFailed2, itStopped2, itErr2
+//@   decreases down(current)
+//@   ensures all [C05]: itTrace0 == old(itTrace0) ++ specPreorder(current)
+//@ loop gtree.defaultWalkerSimple.walkNodeForIter#1
+//@   invariant sofar: itTrace0 == old(itTrace0) ++ seqof(current) ++ specPreorderKids(current, $i)
+
+//@ func gtree.defaultWalkerSimple.walkIter
+//@   requires nn: root != nil
+//@   yields walkNodes(root)
+//@ closure gtree.defaultWalkerSimple.walkIter#1
+//@   yields walkNodes(root)
+//@   requires nn: root != nil
+//@   modifies itTrace0, itTrace1, itFailed1, itStopped1, itTrace2, itFailed2, itStopped2, itErr2
+
+//@ stream walkRelay(wn, e)
+//@   subject r, c
+//@   requires live [C05,C12]: !itFailed1 && !itStopped1
+//@   requires node [C05]: e == nil ==> wn != nil && wn.origin != nil && (c.encode == encodeDefault ==> grown(c.lastNodeFormat, c.intermedialNodeFormat, r))
+//@   requires rejected: e != nil ==> wn == nil
+//@   records itTrace1 := e == nil ? itTrace1 ++ seqof(wn.origin) : itTrace1
+//@   records itFailed1 := itFailed1 || e != nil
+//@   stops itStopped1
+//@   modifies itTrace2, itFailed2, itStopped2, itErr2
+//@   resumes Node.brnch.value, Node.brnch.path, itTrace0
+//@   ensures order [C05]: !itFailed1 && !itStopped1 ==> itTrace1 == specPreorder(r)
+
+//@ func gtree.treeSimple.walkIterProgrammably
+//@   requires ok: simpleTreeOK(t, cfg) && root != nil && root.hierarchy == 1
+//@   yields walkRelay(root, cfg)
+//@ closure gtree.treeSimple.walkIterProgrammably#1
+//@   yields walkRelay(root, cfg)
+//@   requires ok: simpleTreeOK(t, cfg) && root != nil && root.hierarchy == 1
+//@   modifies Node.brnch.value, Node.brnch.path, itTrace0, itTrace1, itFailed1, itStopped1, itTrace2, itFailed2, itStopped2, itErr2
+//@ loop gtree.treeSimple.walkIterProgrammably#1#1
+//@   invariant relay: itTrace1 == itTrace0 && !itFailed1 && !itStopped1
+//@   invariant grown: cfg.encode == encodeDefault ==> grown(cfg.lastNodeFormat, cfg.intermedialNodeFormat, root)
+//@ func gtree.treePipeline.walkIterProgrammably
+//@   assumed
+//@   yields walkRelay(root, cfg)
+
+//@ stream walkOut(wn, e)
+//@   subject r
+//@   requires live [C05,C12]: !itFailed2 && !itStopped2
+//@   requires node [C05]: e == nil ==> wn != nil && wn.origin != nil && r != nil && lastConfig != nil && (lastConfig.encode == encodeDefault ==> grown(lastConfig.lastNodeFormat, lastConfig.intermedialNodeFormat, r))
+//@   requires rejected [C03]: e != nil ==> wn == nil
+//@   records itTrace2 := e == nil ? itTrace2 ++ seqof(wn.origin) : itTrace2
+//@   records itFailed2 := itFailed2 || e != nil
+//@   records itErr2 := e
+//@   stops itStopped2
+//@   modifies nothing
+//@   ensures order [C05,C03]: !itFailed2 && !itStopped2 ==> r != nil && r.hierarchy == 1 && itTrace2 == specPreorder(r)
+
+//@ contract fromRootWalkIter
+//@   yields walkOut(root)
+//@ applies fromRootWalkIter to gtree.WalkIterFromRoot, gtree.WalkIterProgrammably
+//@ closure gtree.WalkIterFromRoot#1
+//@   yields walkOut(root)
+//@   modifies Node.brnch.value, Node.brnch.path, counter.n, lastConfig, itTrace0, itTrace1, itFailed1, itStopped1, itTrace2, itFailed2, itStopped2, itErr2
+//@   ensures nilnode [C03]: root == nil ==> itErr2 == ErrNilNode && len(itTrace2) == 0
+//@   ensures notroot [C03]: root != nil && root.hierarchy != 1 ==> itErr2 == ErrNotRoot && len(itTrace2) == 0
+//@ loop gtree.WalkIterFromRoot#1#1
+//@   invariant relay: itTrace2 == itTrace1 && !itFailed2 && !itStopped2 && !itFailed1 && !itStopped1
+//@   invariant cfg: lastConfig == cfg && cfg != nil && root != nil && root.hierarchy == 1
+//@ closure gtree.WalkIterProgrammably#1
+//@   yields walkOut(root)
+//@   modifies Node.brnch.value, Node.brnch.path, counter.n, lastConfig, itTrace0, itTrace1, itFailed1, itStopped1, itTrace2, itFailed2, itStopped2, itErr2
+//@   ensures nilnode [C03]: root == nil ==> itErr2 == ErrNilNode && len(itTrace2) == 0
+//@   ensures notroot [C03]: root != nil && root.hierarchy != 1 ==> itErr2 == ErrNotRoot && len(itTrace2) == 0
+//@ loop gtree.WalkIterProgrammably#1#1
+//@   invariant relay: itTrace2 == itTrace1 && !itFailed2 && !itStopped2 && !itFailed1 && !itStopped1
+//@   invariant cfg: lastConfig == cfg && cfg != nil && root != nil && root.hierarchy == 1
+
 //@ func gtree.WalkerNode.Name
 //@   requires nn: wn != nil && wn.origin != nil
 //@   ensures name [C05]: result == wn.origin.name
@@ -610,6 +705,8 @@ func specPreorderAll(roots []*Node, i int) []*Node {
 // the verified subset, so its contract is assumed (the With* constructors are one-assignment closures).
 //@ func gtree.newConfig
 //@   assumed
+//@   modifies lastConfig
+//@   ghostset lastConfig := result
 //@   ensures cfg: fresh(result)
 
 //@ func gtree.newTreePipeline
@@ -1163,7 +1260,7 @@ func lemmaInBeforeContains(ks []string, x string, i int) {
 //@ applies fromMarkdownVerify to gtree.VerifyFromMarkdown, gtree.Verify
 
 //@ contract fromRootVerify
-//@   modifies Node.brnch.value, Node.brnch.path, defaultGrowerSimple.enabledValidation, maps, counter.n
+//@   modifies Node.brnch.value, Node.brnch.path, defaultGrowerSimple.enabledValidation, maps, counter.n, lastConfig
 //@   ensures nilnode [C03]: root == nil ==> result == ErrNilNode
 //@   ensures notroot [C03]: root != nil && root.hierarchy != 1 ==> result == ErrNotRoot
 //@   ensures fsframe [C08,C12]: fsOps == old(fsOps) && fsFailed == old(fsFailed)
